@@ -21,7 +21,8 @@ never read "successfully") -/
 def c02_ok (H : HashFn) (D : Decomp) (f : Bytes) (rets : List Int) (out : String) (closed : Bool) : Bool :=
   let success := rets.all (· ≥ 0) && rets.getLast? == some 0 && closed
   if !success then true else
-  match decode H D f with
+  -- a complete file whose identifier was switched to that of a detached header may be refused or read as what it holds
+  match decodeAny H D f with
   | none => false
   | some content => showBytes content == out
 
